@@ -1968,6 +1968,24 @@ func (in *Interp) call(fr *Frame, c *ast.CallExpr) Value {
 				out = out.concat(lit(rest))
 			}
 			return out
+		case "extfunc:strings.Map":
+			// literal input: apply the mapping function rune by rune
+			if ls, ok := args[1].(VStr).isLit(); ok {
+				if mf, ok := args[0].(*VFunc); ok {
+					out := ""
+					for _, r := range ls {
+						res := in.callFunc(mf, []Value{VInt{Known: true, V: int(r)}}, c.Pos())
+						ri, ok := res.(VInt)
+						if !ok || !ri.Known {
+							in.fail("strings.Map with a mapping function whose result is not determined")
+						}
+						if ri.V >= 0 {
+							out += string(rune(ri.V))
+						}
+					}
+					return lit(out)
+				}
+			}
 		case "extfunc:unicode.IsLower", "extfunc:unicode.IsUpper", "extfunc:unicode.IsLetter", "extfunc:unicode.IsDigit":
 			if r, ok := args[0].(VInt); ok && r.Known {
 				switch f.Origin {
